@@ -612,10 +612,21 @@ ADMIN_SCENARIOS = [
 ADMIN_SCENARIOS += [
     ("PAUSE; RELOAD that removes pool db1; RESUME: a session of db1 that sends a query is not held (it goes on to the 'No pool configured' error), db2 unaffected",
      [{"op": "config", "toml": CFG_A}, _conn(0, "db1"), _conn(1, "db2"), _adm("PAUSE"), {"op": "write_config", "toml": CFG_C}, _adm("RELOAD"), _adm("RESUME"), _q(0), _q(1)],
-     [(5, {}, {"u@db2": True, "u@db1": None})], {0: "passed", 1: "passed"}, "C16-POOL-REMOVED-WHILE-PAUSED"),
+     [(5, {}, {"u@db2": True, "u@db1": None})], {0: "nopool", 1: "passed"}, "C16-POOL-REMOVED-WHILE-PAUSED"),
     ("PAUSE; a session of db1 is held; RELOAD that removes pool db1 releases it at once; PAUSE db1,u / RESUME db1,u are refused afterwards",
      [{"op": "config", "toml": CFG_A}, _conn(0, "db1"), _adm("PAUSE"), _q(0), {"op": "write_config", "toml": CFG_C}, _adm("RELOAD"), _adm("PAUSE db1,u")],
      [(3, {0: "blocked"}, {}), (5, {0: "passed"}, {"u@db1": None})], {0: "passed"}, "C16-POOL-REMOVED-WHILE-PAUSED"),
+]
+
+
+CFG_A2 = _G + _pool("db1", 1) + _pool("db2", 4)       # db1 back as it was, db2's server changed
+# regression of F36-readded-user-session-not-held (fixed: the session looks its pool up before it waits)
+F36_OPS = [{"op": "config", "toml": CFG_A}, _conn(0, "db1"), {"op": "write_config", "toml": CFG_C}, _adm("RELOAD"),
+           {"op": "write_config", "toml": CFG_A2}, _adm("RELOAD"), {"op": "write_config", "toml": CFG_B}, _adm("RELOAD"),
+           _adm("PAUSE db1,u"), _q(0), _conn(1, "db1"), _q(1), _adm("RESUME db1,u")]
+ADMIN_SCENARIOS += [
+    ("pool db1 removed by a RELOAD, added again by another (and replaced by a third): PAUSE db1,u holds the OLD session's statement and a new session's, RESUME releases both",
+     F36_OPS, [(9, {0: "blocked"}, {"u@db1": True}), (11, {0: "blocked", 1: "blocked"}, {})], {0: "passed", 1: "passed"}, "F36-readded-user-session-not-held"),
 ]
 
 
@@ -626,6 +637,7 @@ RELOAD_MODEL = {
     "PAUSE; RELOAD with db1's server changed; RESUME:": (2, "[Base APause; %s; ReloadShared; %s; Base (CWake 0); Refresh 0; %s]" % (_QUERY % (0, 0, 0), _RESUME, _QUERY % (1, 1, 1))),
     "RELOAD with db1's server changed, then PAUSE:": (1, "[ReloadShared; Base APause; %s; %s; Base (CWake 0)]" % (_QUERY % (0, 0, 0), _RESUME)),
     "PAUSE; RELOAD (db1 changed); a NEW session": (2, "[Base APause; %s; ReloadShared; %s; %s; Base (CWake 0); Base (CWake 1)]" % (_QUERY % (0, 0, 0), _QUERY % (1, 1, 1), _RESUME)),
+    "pool db1 removed by a RELOAD, added again": (2, "[ReloadRemove; ReloadFresh; ReloadShared; Base APause; %s; %s; %s; Base (CWake 0); Base (CWake 1)]" % (_QUERY % (0, 0, 0), _QUERY % (1, 1, 1), _RESUME)),
     "PAUSE; RELOAD that removes pool db1; RESUME:": (1, "[Base APause; ReloadRemove; %s]" % (_QUERY % (0, 0, 0))),
     "PAUSE; a session of db1 is held; RELOAD that removes": (1, "[Base APause; %s; ReloadRemove; Base (CWake 0)]" % (_QUERY % (0, 0, 0))),
 }
@@ -666,7 +678,7 @@ def check_admin(run, binp):
         bad += ["at the end: client %d is %s, the property says %s" % (c, got.get(c), w) for c, w in fin.items() if got.get(c) != w]
         if fid == "C16-POOL-REMOVED-WHILE-PAUSED":
             c0 = [c for c in ans["final"]["clients"] if c["client"] == 0][0]
-            if c0.get("pool_still_configured") is not False:
+            if c0.get("pool_still_configured") is not False and c0.get("status") != "nopool":
                 bad.append("the session of the removed pool would not get the 'No pool configured' error (get_pool still answers)")
         for prefix, (nm, sched) in RELOAD_MODEL.items():
             if name.startswith(prefix):
@@ -674,7 +686,11 @@ def check_admin(run, binp):
                                                    ["(rfinal %d %s)" % (nm, sched)])[0])
                 code = {0: "idle", 1: "reg", 2: "loaded", 3: "loaded", 4: "blocked", 5: "passed"}
                 gotp = {p["pool"]: p["paused"] for p in ans["final"]["pools"]}
-                if not val or [code[x] for x in val[1:]] != [got.get(c) for c in range(nm)] or {0: False, 1: True, 2: None}[val[0]] != gotp.get("u@db1"):
+                if not val:
+                    # the model refuses the schedule: the session's lookup fails because the pool is gone
+                    if [got.get(c) for c in range(nm)] != ["nopool"] * nm or gotp.get("u@db1") is not None:
+                        bad.append("Pause.ReloadModel: the lookup of a session whose pool is gone fails; implementation: clients %s, db1 %s" % ([got.get(c) for c in range(nm)], gotp.get("u@db1")))
+                elif [code[x] for x in val[1:]] != [got.get(c) for c in range(nm)] or {0: False, 1: True, 2: None}[val[0]] != gotp.get("u@db1"):
                     bad.append("Pause.ReloadModel.rfinal = %s, implementation: clients %s, db1 paused %s" % (val, [got.get(c) for c in range(nm)], gotp.get("u@db1")))
                 run.cov["reload_model_scenarios"] = run.cov.get("reload_model_scenarios", 0) + 1
         if not bad:
@@ -682,6 +698,14 @@ def check_admin(run, binp):
             continue
         run.violation("counterexample", "admin console%s: %s — %s" % (" (regression of %s)" % fid if fid else "", name, bad[0]),
                       {"admin_scenario": {"name": name, "ops": ops}, "monitor": bad, "impl_trace": ans})
+    # discrimination: the F36 scenario replayed with the call site as it was before the lookup was added
+    # (the harness' `stale` query waits on the pool object the session resolved earlier) must show the old session passing
+    stale_ops = [dict(o, stale=True) if o.get("op") == "query" and o.get("client") == 0 else o for o in F36_OPS]
+    ans = run_admin(binp, "stale", stale_ops)
+    got9 = status_of(ans["trace"][9]["obs"])
+    run.cov["admin_stale_selftest"] = {"old_session_after_PAUSE": got9.get(0), "expected": "passed (not held)"}
+    if got9.get(0) != "passed":
+        run.broken.append("admin self-test: with the stale call site the old session of a re-added pool should pass a PAUSE (got %s): the F36 scenario does not discriminate" % got9.get(0))
     run.cov["admin_console_scenarios"] = n
     return n
 
